@@ -1,10 +1,12 @@
 check("C20", "model_checking",
       "TLC model-checks the driver specification SyltDriver (the `sylt` command as a state machine: parse arguments, compile, then run the chunk / "
-      "write it to stdout / write it to FILE, print every error, exit) over all 2800 configurations (10 sinks incl. absent FILE, existing FILE shorter than / as long as / longer than the output, and the root-proof "
-      "unwritable ones - missing parent directory, existing directory, /dev/full, full stdout - x {no --require, M spelled m, m.lua, dir/m.lua, ext.helpers, a.b.c, m.lua.lua} "
-      "x --no-std x accepted / rejected with 1, 2, 255, 256, 257, 512 errors / failing at run time by assert, unreachable, Lua error x uses-std) with the contract (exit 0 <=> success, every error printed, FILE / stdout / the child's "
-      "chunk complete or untouched in every state) as invariants; then the built `sylt` binary is run once per configuration x 3 programs per class x 1 (quick) / 4 "
-      "(thorough) command-line spellings in its own scratch directory with minilua as `lua` on PATH, and every recorded run (exit code, stdout/stderr, FILE before/after, "
+      "write it to stdout / write it to FILE, print every error, exit) over all 6720 configurations (15 sinks incl. absent FILE, existing FILE shorter than / as long as / longer than the output, the root-proof "
+      "unwritable ones - missing parent directory, existing directory, /dev/full, full stdout - and writable non-regular ones - /dev/null, /dev/stdout as a pipe, a FIFO "
+      "with a reader, symlinks to a file and to nowhere - x {no --require, M spelled m, m.lua, dir/m.lua, ext.helpers, a.b.c, m.lua.lua} "
+      "x --no-std x accepted / rejected with 1, 2, 255, 256, 257, 512 errors / rejected for 2, 3, shared, mixed missing imports (errors without source location) / "
+      "failing at run time by assert, unreachable, Lua error / a > 8 KiB line with and without an embedded line end x uses-std) with the contract (exit 0 <=> success, every error printed, FILE / stdout / the child's "
+      "chunk complete or untouched in every state) as invariants; then the built `sylt` binary is run once per configuration (quick) / x 3 programs per class x 2 command-line spellings "
+      "(thorough) in its own scratch directory with minilua as `lua` on PATH, and every recorded run (exit code, stdout/stderr, FILE before/after, "
       "the chunk given to lua, error blocks, require sites and executed requires) is validated by TLC (Trace_Driver) as a behaviour of that specification, including the "
       "relational clauses against partner records (same bytes on every sink and spelling, exactly one require of M without one trailing .lua in front of the unchanged program, --no-std neutral "
       "for std-free programs). Bounded-exhaustive over the configuration space, not a proof.",
